@@ -140,7 +140,7 @@ func (e *Engine) execIndexAddr(fc *fnCtx, b *ssa.BasicBlock, st *State, x *ssa.I
 	case *types.Slice:
 		e.addObl(fc.fn, "index", txt, x.Pos(), st.Reach, and("(<= 0 "+iv.T+")", "(< "+iv.T+" (s_len "+xv.T+"))"))
 		hn, hs := e.sliceHeapName(u.Elem())
-		fc.regs[x] = Val{S: "Int", Addr: &Addr{Kind: aElem, Ref: "(s_ref " + xv.T + ")", Idx: "(+ (s_off " + xv.T + ") " + iv.T + ")", Heap: hn, HSort: hs, ElemT: u.Elem()}, GoT: x.Type()}
+		fc.regs[x] = Val{S: "Int", Addr: &Addr{Kind: aElem, Ref: "(s_ref " + xv.T + ")", Idx: "(ix (s_off " + xv.T + ") " + iv.T + ")", Heap: hn, HSort: hs, ElemT: u.Elem()}, GoT: x.Type()}
 	case *types.Pointer:
 		arr := u.Elem().Underlying().(*types.Array)
 		if _, isConst := x.Index.(*ssa.Const); !isConst || txt != "" {
